@@ -31,6 +31,7 @@ import (
 	"time"
 
 	"github.com/tochemey/goakt/v4/actor"
+	"github.com/tochemey/goakt/v4/internal/verifhook"
 )
 
 // pullSourceActor backs Of, Range, Unfold, and any synchronous pull-based source.
@@ -59,6 +60,7 @@ func (a *pullSourceActor) PreStart(_ *actor.Context) error { return nil }
 
 // Receive handles stageWire, streamRequest, and streamCancel.
 func (a *pullSourceActor) Receive(rctx *actor.ReceiveContext) {
+	verifhook.At("stream.recv", rctx, 0, 0)
 	switch msg := rctx.Message().(type) {
 	case *stageWire:
 		a.downstream = msg.downstream
